@@ -5,7 +5,7 @@
 Require Extraction.
 Require Import ExtrOcamlBasic.
 From FFSM2 Require Import Model.Bits Model.BitStream Model.BitArray Model.Arrays Model.TaskList Model.Plan
-  Model.Dispatch Model.Ancestors Model.Machine Model.Script Model.Multi Proofs.LifeMonitor Proofs.Contract.
+  Model.Dispatch Model.Ancestors Model.Machine Model.Script Model.Multi Proofs.LifeMonitor Proofs.Contract Proofs.CycleProofs.
 Extraction Blacklist List String Nat.
 Extraction "model.ml"
   bitWidth contain
@@ -18,4 +18,5 @@ Extraction "model.ml"
   deep_order
   table_oracle wrun observe
   cb_step
+  expected_cbs update_phases react_phases   (* Proofs/CycleProofs.v: the callbacks of an update()/react()/query() computed from the configuration; update_cycle_order / react_cycle_order / query_shape prove every model run delivers exactly these *)
   first_violation table_okb.   (* Proofs/Contract.v: is the script inside the domain the theorems quantify over *)   (* the C01 lifecycle automaton of Proofs/LifeMonitor.v: proved to accept every model trace (run_accepted), run on implementation traces *)
